@@ -23,6 +23,7 @@ CONSTANTS Depth,        \* simulation: number of steps of a recorded behaviour
           QuorumSet,    \* quorum settings callers use
           Triples,      \* the alternatives for the three content versions in play
           SplitSizes,   \* sizes of the version sets of the client-side cases
+          AllCfgs,      \* later callers use any cfg (else: the first caller's, or one differing in one respect)
           Record,       \* TRUE: keep the history (simulation); FALSE: exhaustive checking
           KnownMask     \* ids of the known findings that are listed
 
@@ -55,12 +56,21 @@ Step(x0, cnt2) ==
        /\ hist' = IF Record THEN Append(hist, Json1(x)) ELSE hist
        /\ UNCHANGED uni
 
-\* callers arrive in the order 1, 2, ...; the first asks for key 1
+\* callers arrive in the order 1, 2, ...; the first asks for key 1.  A later caller asks like the first
+\* one, or differs from it in exactly one respect: the quorum, the expected value, or the key
+\* (AllCfgs = TRUE: any key, quorum and expected value).
+Cfg1 == g.cfg[1]
+OtherQuorums == IF AllCfgs THEN QuorumSet \ {Cfg1.quorum}
+                ELSE {IF Cfg1.quorum = "One" THEN "All" ELSE "One"} \cup (IF Cfg1.quorum = "N2" THEN {"Maj"} ELSE {"N2"})
+LaterCfgs == IF AllCfgs THEN {[key |-> k, quorum |-> qm, target |-> tg] : k \in Key, qm \in QuorumSet, tg \in {0} \cup uni}
+             ELSE {Cfg1} \cup {[Cfg1 EXCEPT !.quorum = qm] : qm \in OtherQuorums}
+                  \cup {[Cfg1 EXCEPT !.target = IF Cfg1.target = 0 THEN CHOOSE c \in uni : \A d \in uni : c <= d ELSE 0]}
+                  \cup {[Cfg1 EXCEPT !.key = k] : k \in Key \ {Cfg1.key}}
 DoCall == LET cl == Cardinality(g.called) + 1 IN
           /\ cl \in Caller
-          /\ \E key \in Key, qm \in QuorumSet, tg \in {0} \cup uni :
-                /\ (cl = 1 => key = 1)
-                /\ Step([Base("Call") EXCEPT !.caller = cl, !.key = key, !.quorum = qm, !.target = tg], cnt)
+          /\ \E cf \in (IF cl = 1 THEN {[key |-> 1, quorum |-> qm, target |-> tg] : qm \in QuorumSet, tg \in {0} \cup uni}
+                                   ELSE LaterCfgs) :
+                Step([Base("Call") EXCEPT !.caller = cl, !.key = cf.key, !.quorum = cf.quorum, !.target = cf.target], cnt)
 
 \* peers are interchangeable: a peer that has not answered yet is the lowest unused id
 UsedPeers == UNION {{r.p : r \in g.replies[q]} : q \in Query}
